@@ -156,16 +156,40 @@ func vhBuildService(s *vhSpec) *v1.Service {
 	if s.sharing != "" {
 		svc.Annotations[AnnotationAllowSharedIP] = s.sharing
 	}
-	if s.reqIP != nil {
-		svc.Spec.LoadBalancerIP = s.reqIP.String()
-	}
+	vhSetReqIP(svc, s)
 	if s.reqPool != "" {
-		svc.Annotations[AnnotationAddressPool] = s.reqPool
+		svc.Annotations[vhPoolKey(s)] = s.reqPool
 	}
 	if s.recIP != nil {
 		svc.Status.LoadBalancer.Ingress = []v1.LoadBalancerIngress{{IP: s.recIP.String()}}
 	}
 	return svc
+}
+
+// Spellings: service s0 uses spec.loadBalancerIP and the current pool annotation, s1 the deprecated
+// annotations (metallb.universe.tf/...), s2 the current loadBalancerIPs annotation.
+func vhPoolKey(s *vhSpec) string {
+	if s.name == "ns0/s1" {
+		return DeprecatedAnnotationAddressPool
+	}
+	return AnnotationAddressPool
+}
+
+func vhSetReqIP(svc *v1.Service, s *vhSpec) {
+	svc.Spec.LoadBalancerIP = ""
+	delete(svc.Annotations, AnnotationLoadBalancerIPs)
+	delete(svc.Annotations, DeprecatedAnnotationLoadBalancerIPs)
+	if s.reqIP == nil {
+		return
+	}
+	switch s.name {
+	case "ns0/s1":
+		svc.Annotations[DeprecatedAnnotationLoadBalancerIPs] = s.reqIP.String()
+	case "ns0/s2":
+		svc.Annotations[AnnotationLoadBalancerIPs] = s.reqIP.String()
+	default:
+		svc.Spec.LoadBalancerIP = s.reqIP.String()
+	}
 }
 
 // lite: explicit address requests only on service 1, no pool requests (smaller case split).
@@ -421,11 +445,10 @@ func VerifControllerWorld(layout, nsvc, eventKind, failures int) {
 		}
 	case 3:
 		es.reqIP = nil
-		api.objs[es.name].Spec.LoadBalancerIP = ""
 		if vr.Bool() {
 			es.reqIP = vhSymAddr()
-			api.objs[es.name].Spec.LoadBalancerIP = es.reqIP.String()
 		}
+		vhSetReqIP(api.objs[es.name], es)
 	case 4:
 		es.sharing = vr.PickString("", "k", "k2")
 		es.port = int32(vr.Int(80, 81))
@@ -434,6 +457,13 @@ func VerifControllerWorld(layout, nsvc, eventKind, failures int) {
 			api.objs[es.name].Annotations[AnnotationAllowSharedIP] = es.sharing
 		}
 		api.objs[es.name].Spec.Ports[0].Port = es.port
+	case 5:
+		// the user changes (or drops) the requested pool
+		es.reqPool = []string{"", "p0", "p1"}[vr.Choose(3)]
+		delete(api.objs[es.name].Annotations, vhPoolKey(es))
+		if es.reqPool != "" {
+			api.objs[es.name].Annotations[vhPoolKey(es)] = es.reqPool
+		}
 	}
 	api.failing = 0
 	w.settle(&req)
